@@ -527,6 +527,8 @@ func c16RangeLiteral(c *fw.Ctx, lit string) {
 		}
 		if got, want := canonKlog(rs, ref.Records), canonRef(ref.Records); got != want {
 			c.Violation("range-literal-denotation", cs, fmt.Sprintf("%q is read as\n%sbut denotes\n%s", lit, got, want))
+		} else if why := matchPrinted(plainPrint(rs), refPrintLines(ref.Records)); why != "" {
+			c.Violation("range-literal-written-out", cs, fmt.Sprintf("%q written out again: %s", lit, why))
 		}
 	}
 }
